@@ -3,6 +3,7 @@ package models
 import (
 	"fmt"
 	"reflect"
+	"sort"
 	"testing"
 
 	enc "github.com/named-data/ndnd/std/encoding"
@@ -28,7 +29,10 @@ type UnkCase struct {
 	Cuts   []int         `json:"cuts,omitempty"`
 }
 
-var unkClasses = []string{"nc1", "nc3", "nc5", "clow", "codd1", "codd3"}
+// wide: a 9-byte type number (>= 2^32, which the packet format does not allow) whose low 32 bits are a
+// type the model knows. Whether a decoder rejects such an element or skips it is left open; it must
+// never be taken for the field whose number it shares half of.
+var unkClasses = []string{"nc1", "nc3", "nc5", "clow", "codd1", "codd3", "nc1", "nc3", "nc5", "clow", "codd1", "codd3", "wide"}
 
 func genUnk(st *modelreg.State) func(*rapid.T) UnkCase {
 	keys := st.Keys()
@@ -240,7 +244,27 @@ func execUnk(st *modelreg.State) func(UnkCase) evid.Result {
 		for _, t := range levelModel.Info.Types {
 			known[t] = true
 		}
-		typ, cl := pickUnknown(c.Class, c.Seed, known)
+		for _, f := range levelModel.Info.Fields { // also what the definition says, whatever the parse loop looks like
+			known[f.Type] = true
+		}
+		var typ uint64
+		var cl string
+		wide := c.Class == "wide"
+		if wide {
+			var ks []uint64
+			for t := range known {
+				if t != 0 && t < 1<<32 {
+					ks = append(ks, t)
+				}
+			}
+			if len(ks) == 0 {
+				return evid.Result{Classes: []string{"skipped:no-known-type-at-this-level"}}
+			}
+			sort.Slice(ks, func(i, j int) bool { return ks[i] < ks[j] })
+			typ, cl = (1+(c.Seed>>8)%3)<<32|ks[int(c.Seed)%len(ks)], "wide"
+		} else {
+			typ, cl = pickUnknown(c.Class, c.Seed, known)
+		}
 		if cl == "" {
 			return evid.Result{Classes: []string{"skipped:no-unknown-type-available"}}
 		}
@@ -300,6 +324,9 @@ func execUnk(st *modelreg.State) func(UnkCase) evid.Result {
 					if err := guard("Parse("+rd.name+")", func() { got, _, perr = m.ParseOnce(rd.mk(), ic) }); err != nil {
 						return fail("%s: %v", where, err)
 					}
+					if wide && perr != nil {
+						continue // rejected: fine (type numbers above 2^32-1 are not part of the format)
+					}
 					if critical && !ic {
 						if perr == nil {
 							return fail("%s: Parse(%s, ignoreCritical=false) accepted an unrecognised critical element", where, rd.name)
@@ -354,7 +381,7 @@ func execUnk(st *modelreg.State) func(UnkCase) evid.Result {
 	}
 }
 
-const ruleUnk = "every discovered model x random value x one unknown TLV (type not used by the model at that level: non-critical even >31 in 1-, 3- and 5-byte type form, or critical <=31 / odd) inserted at every element boundary of the top level or of a nested model value one, two or three levels down; BufferReader and segmented WireReader, ignoreCritical false and true. Non-critical (or ignoreCritical): decode succeeds, equals the original value, re-encodes to the original bytes; critical and !ignoreCritical: ErrUnrecognizedField for that type. Non-trivial: >= 2 elements at the insertion level"
+const ruleUnk = "every discovered model x random value x one unknown TLV (type not used by the model at that level: non-critical even >31 in 1-, 3- and 5-byte type form, or critical <=31 / odd; or a 9-byte number sharing its low 32 bits with a known field: rejected, or skipped like the others, never taken for that field) inserted at every element boundary of the top level or of a nested model value one, two or three levels down; BufferReader and segmented WireReader, ignoreCritical false and true. Non-critical (or ignoreCritical): decode succeeds, equals the original value, re-encodes to the original bytes; critical and !ignoreCritical: ErrUnrecognizedField for that type. Non-trivial: >= 2 elements at the insertion level"
 
 func TestC13Unknown(t *testing.T) {
 	st := state()
